@@ -153,7 +153,7 @@ Theorem suffix_confinement : forall p d s items tail v' e,
 Proof. exact suffix_confinement_lemma. Qed.
 Print Assumptions suffix_confinement.
 
-(* SUFFIX CONFINEMENT for three syntactic CLASSES of damaged commands (hypotheses are checkable
+(* SUFFIX CONFINEMENT for four syntactic CLASSES of damaged commands (hypotheses are checkable
    predicates on the text; no hypothesis about the run).  In both, the damaged command follows
    a well-formed file and junk, is followed by arbitrary text r without '@', and then by any
    well-formed items: those items are read exactly as they denote under the macro table in
@@ -170,6 +170,9 @@ Print Assumptions suffix_confinement.
        name and '=' NOT followed by a value (value deleted, its opening delimiter replaced by
        something that cannot start a value); the offending character is not whitespace, not a
        name character and not '@'; the damaged entry contributes its complete fields.
+   (4) NO OPENER: '@' ws type ws X r with X neither whitespace nor '(' nor '{' nor '@', and
+       separated from the type by whitespace or not a name character (opening delimiter deleted
+       or replaced, type written twice, ...).
    F25 ('@' followed by whitespace and the next '@') is outside all classes: X = '@'.
    Still only oracle-checked: damage that leaves the scanner inside a string or a name / key
    token (deleted or duplicated delimiters that stay balanced, a deleted ',' before a field
@@ -202,6 +205,18 @@ Theorem suffix_confinement_damaged_close :
     /\ Proofs.BibFile.view d' = v2 /\ p_errs s' = map data_err e ++ [te] ++ map data_err e1 ++ map data_err e2 /\ e_cls te = E_TOKEN.
 Proof. exact suffix_confinement_damaged_close_lemma. Qed.
 Print Assumptions suffix_confinement_damaged_close.
+
+Theorem suffix_confinement_no_opener : forall items junk ws0 typ ws1 X r v e items2 tail2 v2 e2,
+  wf_file month_macros items -> no_at junk -> no_at r -> N.eqb X c_at = false ->
+  forallb is_space ws0 = true -> forallb is_space ws1 = true -> is_name typ = true ->
+  is_space X = false -> X <> 40%N -> X <> c_lbrace -> (ws1 <> [] \/ is_name_char X = false) ->
+  denote_items2 month_macros items ([], []) = Some (v, e) ->
+  wf_file (final_macros month_macros items) items2 -> no_at tail2 ->
+  denote_items2 (final_macros month_macros items) items2 v = Some (v2, e2) ->
+  exists d' s' te, parse_bib Capture (file_text2 items (junk ++ c_at :: ws0 ++ typ ++ ws1 ++ X :: r) ++ file_text2 items2 tail2) = Ret d' s'
+    /\ Proofs.BibFile.view d' = v2 /\ p_errs s' = map data_err e ++ [te] ++ map data_err e2 /\ e_cls te = E_TOKEN.
+Proof. exact suffix_confinement_no_opener_lemma. Qed.
+Print Assumptions suffix_confinement_no_opener.
 
 Theorem suffix_confinement_broken_field :
   forall items junk brace ws0 typ ws1 ws2 key wsk fs bk r v e v1 e1 items2 tail2 v2 e2,
